@@ -135,6 +135,8 @@ func runC06(c *an.Ctx) {
 	}
 	c.Check(okV, "AUTH", loader, loader.Pos(), an.KeyOf(loader, "loader-verifies"), "the loader verifies each persisted authorization under the GCA key before applying it", "call to a function whose nil-error summary contains Verify(gcaPubkey, ...)")
 	keyset(c, []*ssa.Function{saver, loader}, "C06")
+	// "also after a restart": the loaders' rules (owned by C04)
+	restartRules(c)
 	c.Note("INVERSE", saver, saver.Pos(), an.KeyOf(saver, "key-uniqueness"), "a new authorization whose public key is already used by another id overwrites that id's index entry (uniqueness of keys across ids is not enforced by the code; the property's conflict cases are per id)")
 }
 
@@ -322,6 +324,50 @@ func saverStructure(c *an.Ctx, fn *ssa.Function, isLoader bool) {
 			}
 		}
 		c.Check(nb, "CASES", fn, fileWrite.Pos(), an.KeyOf(fn, "saver:file-write:ban-test"), "nothing is appended to the authorization file for a banned id", "facts "+factList(facts))
+		// and an identical resubmission appends nothing (to the file or to the list of recent authorizations)
+		notSameAt := func(in ssa.Instruction) bool {
+			for _, f := range fi.FactsAt(in) {
+				t := f.T
+				if f.Neg && t.K == an.KExt && t.S == "1" && t.A[0].K == an.KLkOK {
+					if fld, _, ok := mapFieldOfTerm(t.A[0].A[0]); ok && fld == "equipment" && t.A[0].A[1].Key() == idT.Key() {
+						return true
+					}
+				}
+				if t.K == an.KOr {
+					for _, pr := range [][2]*an.Term{{t.A[0], t.A[1]}, {t.A[1], t.A[0]}} {
+						ne, diff := pr[0], pr[1]
+						if ne.K == an.KUn && ne.S == "!" && ne.A[0].K == an.KExt && ne.A[0].S == "1" && ne.A[0].A[0].K == an.KLkOK {
+							if fld, _, ok := mapFieldOfTerm(ne.A[0].A[0].A[0]); ok && fld == "equipment" && diff.K == an.KBin && diff.S == "!=" {
+								return true
+							}
+						}
+					}
+				}
+			}
+			return false
+		}
+		c.Check(notSameAt(fileWrite), "CASES", fn, fileWrite.Pos(), an.KeyOf(fn, "saver:file-write:identical-noop"), "an identical resubmission appends nothing to the authorization file (resubmitting changes nothing)", "facts "+factList(facts))
+		for _, b := range fn.Blocks {
+			for _, in := range b.Instrs {
+				call, ok := in.(*ssa.Call)
+				if !ok {
+					continue
+				}
+				sc := call.Call.StaticCallee()
+				if sc == nil || !an.IsRepoFunc(sc) {
+					continue
+				}
+				writesRecent := false
+				for _, w := range p.Effect(sc).WritesSorted() {
+					if strings.Contains(w, "recentEquipmentAuths") {
+						writesRecent = true
+					}
+				}
+				if writesRecent {
+					c.Check(notSameAt(call), "CASES", fn, call.Pos(), an.KeyOf(fn, "saver:recent:identical-noop"), "an identical resubmission is not added to the list of recent authorizations", "facts "+factList(fi.FactsAt(call)))
+				}
+			}
+		}
 		// data written is ea.Serialize()
 		dt := fi.Term(fileWrite.Call.Args[1])
 		okD := (dt.K == an.KPure || dt.K == an.KCall) && strings.HasSuffix(dt.Callee(), ").Serialize") && len(dt.A) == 1
@@ -405,4 +451,39 @@ func keyOrNone(t *an.Term) string {
 		return "(none)"
 	}
 	return short(t.Key())
+}
+
+// authTableRules: the structural rules about the device tables that other properties rely on when they say
+// "authorized and not banned": the saver's and the loader's case analysis (ban test, identical no-op, persist
+// first, conflict deletes exactly the id everywhere) and the key-set pairing of the sibling maps.
+func authTableRules(c *an.Ctx, prop string) {
+	p := c.P
+	saver := findAuthSaver(p)
+	if saver == nil {
+		c.Undecided("ANCHOR", nil, 0, "auth-saver", "authorization saver not found", "anchor missing")
+		return
+	}
+	saverStructure(c, saver, false)
+	ctor := p.Constructor("server", "GCAServer")
+	construction := p.ConstructionPhase("server", ctor)
+	for _, fn := range p.FuncsIn("server") {
+		if !construction[fn] || isAttributedHelper(p, fn) {
+			continue
+		}
+		for _, op := range serverMapOps(p, fn, "GCAServer") {
+			if op.field == "equipment" && op.kind == "insert" {
+				saverStructure(c, fn, true)
+				keyset(c, []*ssa.Function{saver, fn}, prop)
+				return
+			}
+		}
+	}
+}
+
+// restartRules: what a restart does with the persisted records (rules owned by C04): replay through the live
+// parser and integrator over every record, no early exit, banned ids skipped by their own id.
+func restartRules(c *an.Ctx) {
+	roles, construction := fileRoles(c)
+	replayRule(c, roles, construction)
+	monotoneLoad(c, roles)
 }
